@@ -313,7 +313,10 @@ func (m *mavenExtension) compare(e extension) int {
 			if a.sep != b.sep {
 				return int(a.sep) - int(b.sep) // Magic: '-'+1 = '.'.
 			}
-			return sgn64(a.int, b.int)
+			if s := sgn64(a.int, b.int); s != 0 {
+				return s
+			}
+			continue // Same value spelled differently, such as 01 and 1.
 		}
 		if a.sep != b.sep {
 			return int(b.sep) - int(a.sep) // Note: reversed compared to numeric. Nice.
